@@ -55,6 +55,26 @@ def classify(site):
     return None
 
 
+POINTWISE = {"intersect", "union", "minus", "mk_unit_colored_vertices", "unit_colored_vertices", "mk_empty_colored_vertices", "pre", "post", "var_pre",
+             "var_post", "variables", "rev", "create_comparator_var_state", "create_comparator_two_vars", "project_out_hctl_var", "project_out_bn_vars",
+             "compute_valid_domain_for_var", "restrict_stg_unit_bdd", "substitute_hctl_var", "compute_attractor_states", "compute_steady_states",
+             "eval_node", "is_empty", "symbolic_context", "find_network_variable", "mk_state_variable_is_true", "new", "unwrap", "get", "get_mut", "insert",
+             "iter", "clone", "as_str", "get_canonical_and_renaming", "to_string", "symbolic", "contains_key", "into_iter"}
+
+
+def non_pointwise(t):
+    """Names of the callees in a value term that are not on the list of colour-pointwise primitives."""
+    bad = []
+    for x in subterms(t):
+        if x[0] in ("call", "rec") and isinstance(x[1], str):
+            l = last(x[1])
+            if l not in POINTWISE:
+                bad.append(l)
+        elif x[0] == "hof" and x[1] not in ("all", "map"):
+            bad.append(x[1])
+    return bad
+
+
 def selftest(rep):
     """Positive examples for the zero-count rule: the classifier must flag these on every run."""
     mk = lambda callee: terms.Site(kind="mcall", callee=callee, name=last(callee), args=[])     # noqa: E731
@@ -132,8 +152,16 @@ def run(prog, rep):
                           "empty-universe shortcut: a decision taken for all colours at once makes one colour's answer depend on the others")
     rep.floor("C20-R1", 3)
     rep.floor("C20-R2", 4)
-    # R3
-    for key, shape, alts, kind, op in sem.plain_shapes() + sem.domain_shapes():
-        sem.check_shape(rep, "C20-R3", en, shape, alts, key, detail=f"{kind} {op}")
+    # R3: closure - the value of every node shape is built from pointwise primitives only
+    import c03
+    for key, shape in c03.all_shapes():
+        rs = [r for r in en.specialise(shape) if r["term"] != terms.NEVER]
+        for i, r in enumerate(rs):
+            bad = non_pointwise(r["term"])
+            tag = "cache-hit" if sem.is_cache_path(r) else r["kind"]
+            rep.check(not bad, "C20-R3", f"eval_node/{key}/{tag}{i}", f"{en.fn.file}:{r['node'].get('sp', [0])[0]}",
+                      "value is built from colour-pointwise primitives only",
+                      f"value for node shape {key} uses `{bad[0] if bad else ''}`, which is not one of the colour-pointwise primitives "
+                      "(set algebra, pre-images, comparator, projections of state / auxiliary variables, recursive results, library shortcuts on the current graph)")
     lowlevel.check_primitives(prog, rep, "C20-R3")
-    rep.floor("C20-R3", 30)
+    rep.floor("C20-R3", 60)
